@@ -146,7 +146,7 @@ fn check_long<T: Scalar>(spec: &Spec, seqs: &[Vec<f64>], len: usize, st: &mut St
 
 pub fn run(ctx: &Ctx) -> CheckOutput {
     let quick = ctx.tier == Tier::Quick;
-    let depth = if quick { 6 } else { 7 };
+    let depth = if quick { 7 } else { 8 };
     let mut jobs: Vec<Job> = vec![];
     // every view, all variants, N = 1..8 exhaustively by TREE
     for n in 1..=8usize {
@@ -205,7 +205,7 @@ pub fn run(ctx: &Ctx) -> CheckOutput {
         }
     }
     // every two-level chain, N in {1,2,3}^2 (actual small windows, not clamped)
-    let cdepth = if quick { 4 } else { 5 };
+    let cdepth = if quick { 5 } else { 6 };
     for o in unary_catalogue() {
         let ons: Vec<usize> = if o.has_n { vec![1, 2, 3] } else { vec![1] };
         for on in ons {
